@@ -7,7 +7,7 @@
    simplicial classes) are tied to the code by the correspondence and decided by the oracle. *)
 From Coq Require Import String ZArith List Bool.
 From XV Require Import Base.Label Base.LSet Base.ODict Base.Attr Base.Outcome Model.Hypergraph Model.HgCheck Model.Convert
-  Proofs.HgViews Proofs.HgInv Proofs.HgStep Proofs.HgErrors Proofs.DerivedProofs Proofs.ConvertProofs.
+  Proofs.HgViews Proofs.HgInv Proofs.HgStep Proofs.HgErrors Proofs.DerivedProofs Proofs.ConvertProofs Proofs.NoNoneProofs Model.Matrix Model.Graph Proofs.IncidenceRoundTrip Proofs.BipartiteRoundTrip.
 Import ListNotations.
 Open Scope Z_scope.
 
@@ -47,6 +47,28 @@ Theorem C10_dataframe_roundtrip : forall s, Inv s -> NoNone s ->
 Proof. exact dataframe_roundtrip. Qed.
 Print Assumptions C10_dataframe_roundtrip.
 
+(* labelled incidence matrix: the pairs read off the matrix under its own index maps are exactly the
+   incidences, so rebuilding from them gives back the incidence relation *)
+Theorem C10_incidence_matrix_roundtrip : forall s, Inv s -> NoNone s ->
+  let r := from_incidence_matrix (incidence s None) (Some (keys (h_node s), keys (h_edge s))) in
+  let t := st_of r in
+  (h_edge s <> [] -> h_node s <> [] -> out_of r = Ok) /\
+  (out_of r = Ok -> forall n e, In n (mems t e) <-> In n (mems s e)).
+Proof. exact incidence_matrix_roundtrip. Qed.
+Print Assumptions C10_incidence_matrix_roundtrip.
+
+(* bipartite graph: node i of H <-> vertex i, edge j <-> vertex n + j, exactly the incidences of H *)
+Theorem C10_bipartite_graph_roundtrip : forall s, Inv s ->
+  let n := length (keys (h_node s)) in
+  let r := from_bipartite_graph n (bipartite_links s) in
+  let t := st_of r in
+  out_of r = Ok /\
+  (forall i j, (i < n)%nat -> (j < length (h_edge s))%nat ->
+     (In (LInt (Z.of_nat i)) (mems t (LInt (Z.of_nat (n + j)))) <->
+      In (nth i (keys (h_node s)) LNone) (snd (nth j (h_edge s) (LNone, []))))).
+Proof. exact bipartite_graph_roundtrip. Qed.
+Print Assumptions C10_bipartite_graph_roundtrip.
+
 (* what from_* builds from ANY list of (node, edge) pairs: exactly the listed incidences *)
 Theorem C10_pairs_build_exactly : forall l,
   (forall p, In p l -> fst p <> LNone /\ snd p <> LNone) ->
@@ -76,6 +98,14 @@ Print Assumptions C10_hif_dict_roundtrip.
 Theorem C10_reachable_Inv : forall ops, admissible_history hg_empty ops -> Inv (run ops hg_empty).
 Proof. intros ops A. apply run_Inv; [exact A|apply Inv_empty]. Qed.
 Print Assumptions C10_reachable_Inv.
+
+(* the premises Inv and NoNone hold at every state reachable by an admissible history in which no
+   explicit edge id is None (Python cannot pass one: idx=None means "automatic") *)
+Theorem C10_premises_reachable : forall ops,
+  admissible_history hg_empty ops -> expressible_history ops ->
+  Inv (run ops hg_empty) /\ NoNone (run ops hg_empty).
+Proof. intros ops A E. apply run_NoNone; [exact A|exact E|apply Inv_empty|apply NoNone_empty]. Qed.
+Print Assumptions C10_premises_reachable.
 
 Example C10_nonvacuous :
   let s := run [OAddEdgesFrom (EB1 [[LInt 1; LInt 2; LInt 3]; []; [LInt 3; LInt 4]]) []; OAddNode (LInt 9) [("c"%string, AInt 1)]] hg_empty in
